@@ -181,3 +181,17 @@ Definition component_claim (self_proto : bytes) (r : registry) (k : key) (sid : 
        end).
 Definition component_release (self_proto : bytes) (r : registry) (k : key) (sid : bytes) : registry :=
   fst (reg_step r (ORelease k (mkOwner self_proto sid k))).
+
+(* the call sites: `if c.exclusivity == nil || !sess.MixedAccess { return }`, then
+   MakeTupleKey(sess.OuterVLAN, sess.InnerVLAN, sess.MAC) and the claim / release above.
+   Events are (evicted session id, tuple named in the event). *)
+Definition caller_claim (self_proto : bytes) (mixed : bool) (r : registry) (svlan cvlan : N) (mac sid : bytes)
+  : registry * list (bytes * key) :=
+  if mixed then
+    let k := make_tuple_key svlan cvlan mac in
+    let (r', ev) := component_claim self_proto r k sid in
+    (r', map (fun s => (s, k)) ev)
+  else (r, []).
+Definition caller_release (self_proto : bytes) (mixed : bool) (r : registry) (svlan cvlan : N) (mac sid : bytes)
+  : registry :=
+  if mixed then component_release self_proto r (make_tuple_key svlan cvlan mac) sid else r.
